@@ -210,7 +210,12 @@ impl Ctx {
         o.set("notes", J::Arr(self.notes.iter().map(|s| J::s(s.clone())).collect()));
         let text = o.to_string();
         if let Some(p) = &self.out {
-            let _ = std::fs::write(p, &text);
+            // written atomically: with -Zmiri-many-seeds several runs of the same shard write this path
+            let tmp = format!("{}.tmp{}", p, std::process::id() as u64 ^ self.evals);
+            if std::fs::write(&tmp, &text).is_ok() && std::fs::rename(&tmp, p).is_err() {
+                let _ = std::fs::write(p, &text);
+                let _ = std::fs::remove_file(&tmp);
+            }
             // distinct non-trivial hashes, sorted, for the cross-shard union
             let mut hs: Vec<u64> = self.nt.iter().copied().collect();
             hs.sort_unstable();
